@@ -560,7 +560,7 @@ def _check_trace(res, S):
     import numpy as np
 
     name = "unary_irrev_cstr"
-    for pt, tv in TRACE_POINTS:
+    for ipt, (pt, tv) in enumerate(TRACE_POINTS):
         p = {q: Fr(pt[q]) for q in MECH[name]["params"]}
         pm, rows = _eval_symbolic(S, name, p, [Fr(tv)])
         ref = [float(x) for x in rows[0][0]]
@@ -581,7 +581,7 @@ def _check_trace(res, S):
             res.outcomes["trace-product:%s" % ("agrees" if ok else "DIFFERS")] += 1
             if not ok:
                 res.violation("C17|%s|%s|trace-product-differs-from-symbolic-form" % (name, _family(sp_name)), "%s(t=%s, %s) [%s] = %r, symbolic form %r (relative tolerance %g per component)" % (
-                    name, tv, _pstr(p), sp_name, got, ref, TOL_TRACE), dict(layer="TR"), got, ref)
+                    name, tv, _pstr(p), sp_name, got, ref, TOL_TRACE), dict(layer="TR", point=ipt, spelling=sp_name), got, ref)
 
 
 def _check_identity(res):
@@ -601,7 +601,7 @@ def _check_identity(res):
             got = (getattr(f, "__name__", None), _exc_tag(ex))
         res.outcomes["identity:%s" % ("ok" if got == (name, True) else "WRONG")] += 1
         if got != (name, True):
-            res.violation("C17|%s|identity" % name, "chempy.kinetics.integrated.%s: (__name__, pickle round trip gives the same function) = %r" % (name, got), dict(layer="ID"), list(got), [name, True])
+            res.violation("C17|%s|identity" % name, "chempy.kinetics.integrated.%s: (__name__, pickle round trip gives the same function) = %r" % (name, got), dict(layer="ID", fn=name), list(got), [name, True])
 
 
 def run_chunk(chunk, tier):
@@ -677,7 +677,7 @@ def replay(case):
     if case.get("layer") in ("TR", "ID"):
         sub = Result()
         _check_trace(sub, _symbolic("unary_irrev_cstr")) if case["layer"] == "TR" else _check_identity(sub)
-        res.violations = [v for v in sub.violations if v["key"] == case.get("expect_key")] or list(sub.violations)
+        res.violations = [v for v in sub.violations if all(v["case"].get(k) == case.get(k) for k in ("point", "spelling", "fn"))]
         if res.violations:
             v = res.violations[0]
             return dict(key=v["key"], what=v["what"], observed=v["observed"], expected=v["expected"])
